@@ -202,6 +202,33 @@ func (a *VerifC18Adm) AdvanceClock(d time.Duration) {
 	}
 }
 
+// SetBanLeft rewrites the stored expiry of host ip (if it is in the ban table) to time.Now()+left:
+// the harness keeps ban expiries on a logical clock (measured from what handleBanPeerMsg stored) and
+// re-anchors them to the wall clock immediately before each call of handleAddPeerMsg, so that clock
+// positions a few milliseconds around the expiry can be exercised exactly.
+func (a *VerifC18Adm) SetBanLeft(ip string, left time.Duration) bool {
+	if _, ok := a.state.banned[ip]; !ok {
+		return false
+	}
+	a.state.banned[ip] = time.Now().Add(left)
+	return true
+}
+
+// BannedHosts lists the hosts in the ban table.
+func (a *VerifC18Adm) BannedHosts() []string {
+	r := make([]string, 0, len(a.state.banned))
+	for h := range a.state.banned {
+		r = append(r, h)
+	}
+	return r
+}
+
+// BanLeft returns the stored expiry of host ip minus time.Now().
+func (a *VerifC18Adm) BanLeft(ip string) (time.Duration, bool) {
+	t, ok := a.state.banned[ip]
+	return time.Until(t), ok
+}
+
 // VerifC18Snap is a canonical copy of the peerState.
 type VerifC18Snap struct {
 	Inbound, Outbound, Persistent []int32
